@@ -82,6 +82,8 @@ def run_eq(case):
         flip = case.get('flip')
         if flip is not None and case['x']['cls'] in MUTABLE and flip < len(a):
             x.invert(flip)
+            if bitstring_module().options.lsb0:
+                flip = len(a) - 1 - flip      # positions are mirrored in lsb0 mode
             a = a[:flip] + ('1' if a[flip] == '0' else '0') + a[flip + 1:]
             require(x.bin == a, 'invert(i) did not flip exactly bit i')
         exp = a == b
@@ -241,10 +243,10 @@ def run_triple(case):
 
 
 SUBCHECKS = [
-    Sub('C13.eq_model', run_eq, strategy=eq_case, ambient=('bytealigned',), examples={'quick': 10000, 'thorough': 150000}),
-    Sub('C13.eq_promotable', run_promo, strategy=promo_case, ambient=('bytealigned',), examples={'quick': 8000, 'thorough': 100000}),
-    Sub('C13.eq_nonpromotable', run_nonpromo, strategy=nonpromo_case, ambient=('bytealigned',), examples={'quick': 3000, 'thorough': 30000}),
-    Sub('C13.hash_consistent', run_hash, strategy=hash_case, ambient=('bytealigned',), examples={'quick': 8000, 'thorough': 100000}),
-    Sub('C13.unhashable', run_unhash, strategy=unhash_case, ambient=('bytealigned',), examples={'quick': 600, 'thorough': 5000}),
-    Sub('C13.triples', run_triple, strategy=triple_case, ambient=('bytealigned',), examples={'quick': 5000, 'thorough': 60000}),
+    Sub('C13.eq_model', run_eq, strategy=eq_case, ambient=('bytealigned', 'lsb0'), examples={'quick': 10000, 'thorough': 150000}),
+    Sub('C13.eq_promotable', run_promo, strategy=promo_case, ambient=('bytealigned', 'lsb0'), examples={'quick': 8000, 'thorough': 100000}),
+    Sub('C13.eq_nonpromotable', run_nonpromo, strategy=nonpromo_case, ambient=('bytealigned', 'lsb0'), examples={'quick': 3000, 'thorough': 30000}),
+    Sub('C13.hash_consistent', run_hash, strategy=hash_case, ambient=('bytealigned', 'lsb0'), examples={'quick': 8000, 'thorough': 100000}),
+    Sub('C13.unhashable', run_unhash, strategy=unhash_case, ambient=('bytealigned', 'lsb0'), examples={'quick': 600, 'thorough': 5000}),
+    Sub('C13.triples', run_triple, strategy=triple_case, ambient=('bytealigned', 'lsb0'), examples={'quick': 5000, 'thorough': 60000}),
 ]
